@@ -56,6 +56,7 @@ class Ctx:
         self._keep = []            # keeps decided ASTs alive so that ids are not recycled
         self.div_lemmas = {}       # id of a symbolic/symbolic quotient term -> redundant linear lemma, added on first use
         self._seen_ids = set()
+        self.lits = []             # decision literals of this path (taken or implied), for margin witnesses
 
     def activate(self, e):
         """add the pending quotient lemmas of every division term occurring in e"""
@@ -144,6 +145,7 @@ class Ctx:
             taken = self.prefix[self.pos]
             self.pos += 1
             self.solver.add(e if taken else z3.Not(e))
+            self.lits.append(e if taken else z3.Not(e))
             self.path.append(taken)
             self.model = None
             return taken
@@ -167,6 +169,7 @@ class Ctx:
         else:
             # the other side is infeasible: e (or its negation) is implied; no need to add
             pass
+        self.lits.append(e if side else z3.Not(e))
         self.path.append(side)
         self.pos += 1
         self.prefix.append(side)
